@@ -17,15 +17,19 @@ pub struct Skin {
   pub wrap: bool,   // everything inside `function f() {` ... `}`, indented: the comments and calls are nested
   pub crlf: bool,
   pub idfmt: usize, // 0 "a, b"  1 "a,b"  2 " a ,  b "
+  /// C: statements inside `void f() {`, and a line of statements that no rule matches is written as a preprocessor
+  /// directive (`#define N 0`) - a node that contains its own line break and so reaches onto the next line
+  pub c: bool,
 }
 
-pub const SKINS: [Skin; 6] = [
-  Skin { id: 0, python: false, block: false, wrap: false, crlf: false, idfmt: 0 },
-  Skin { id: 1, python: false, block: true, wrap: false, crlf: false, idfmt: 1 },
-  Skin { id: 2, python: false, block: false, wrap: true, crlf: false, idfmt: 2 },
-  Skin { id: 3, python: false, block: false, wrap: false, crlf: true, idfmt: 0 },
-  Skin { id: 4, python: true, block: false, wrap: false, crlf: false, idfmt: 1 },
-  Skin { id: 5, python: false, block: true, wrap: true, crlf: true, idfmt: 2 },
+pub const SKINS: [Skin; 7] = [
+  Skin { id: 0, python: false, block: false, wrap: false, crlf: false, idfmt: 0, c: false },
+  Skin { id: 1, python: false, block: true, wrap: false, crlf: false, idfmt: 1, c: false },
+  Skin { id: 2, python: false, block: false, wrap: true, crlf: false, idfmt: 2, c: false },
+  Skin { id: 3, python: false, block: false, wrap: false, crlf: true, idfmt: 0, c: false },
+  Skin { id: 4, python: true, block: false, wrap: false, crlf: false, idfmt: 1, c: false },
+  Skin { id: 5, python: false, block: true, wrap: true, crlf: true, idfmt: 2, c: false },
+  Skin { id: 6, python: false, block: false, wrap: true, crlf: false, idfmt: 0, c: true },
 ];
 
 fn ids_text(ids: &Value, skin: &Skin) -> Option<String> {
@@ -60,7 +64,7 @@ pub fn render(layout: &Value, skin: &Skin) -> (String, usize) {
   let mut out = String::new();
   let ind = if skin.wrap { "  " } else { "" };
   if skin.wrap {
-    out.push_str("function f() {\n");
+    out.push_str(if skin.c { "void f() {\n" } else { "function f() {\n" });
   }
   for line in layout.as_array().unwrap() {
     out.push_str(ind);
@@ -68,6 +72,11 @@ pub fn render(layout: &Value, skin: &Skin) -> (String, usize) {
       out.push_str(&ids_text(&line["ids"], skin).unwrap());
     } else {
       let stmts: Vec<&str> = line["stmts"].as_array().unwrap().iter().map(stmt_text).collect();
+      if skin.c && !stmts.is_empty() && stmts.iter().all(|s| *s == "n(0);") && ids_text(&line["trail"], skin).is_none() {
+        out.truncate(out.len() - ind.len());
+        out.push_str("#define N 0\n");
+        continue;
+      }
       out.push_str(&stmts.join(" "));
       if let Some(c) = ids_text(&line["trail"], skin) {
         out.push(' ');
@@ -84,6 +93,15 @@ pub fn render(layout: &Value, skin: &Skin) -> (String, usize) {
 }
 
 fn rules_json(lang: &str) -> Vec<Value> {
+  if lang == "C" {
+    // `b($$$)` on its own does not parse to a call in C: the calls are named by kind and text
+    return vec![
+      json!({"id": "r1", "language": lang, "severity": "warning", "message": "m1", "fix": "fixed()",
+             "rule": {"kind": "call_expression", "regex": "^(a1|b)\\("}}),
+      json!({"id": "r2", "language": lang, "severity": "warning", "message": "m2",
+             "rule": {"kind": "call_expression", "regex": "^(a2|b)\\("}}),
+    ];
+  }
   vec![
     // r1 has a fix: with separate_fix its matches travel as diffs, and must be silenced just the same
     json!({"id": "r1", "language": lang, "severity": "warning", "message": "m1", "fix": "fixed()",
@@ -115,13 +133,24 @@ fn classify(src: &str, hits: &[(String, usize, usize)], off: usize) -> (Vec<Valu
 
 pub fn drive(vectors: &str, out: &str, thorough: bool) {
   std::panic::set_hook(Box::new(|_| {}));
-  let layouts = util::read_ndjson(vectors);
+  let mut layouts = util::read_ndjson(vectors);
+  if !thorough {
+    // the quick model stops at two lines; every layout is also tried behind a line of code that no rule matches
+    // (what stands before a comment decides whether the comment is taken for an own-line or a trailing one)
+    let neutral = json!({"kind": "code", "stmts": [[]], "trail": ["-"], "ids": ["-"]});
+    let ext: Vec<Value> = layouts.iter().map(|l| {
+      let mut v = vec![neutral.clone()];
+      v.extend(l.as_array().unwrap().iter().cloned());
+      json!(v)
+    }).collect();
+    layouts.extend(ext);
+  }
   let globals = GlobalRules::default();
   let mk = |lang: &str| {
     let yaml = rules_json(lang).iter().map(|r| serde_json::to_string(r).unwrap()).collect::<Vec<_>>().join("\n---\n");
     from_yaml_string::<SupportLang>(&yaml, &globals).expect("rules load")
   };
-  let (cfgs_js, cfgs_py) = (mk("JavaScript"), mk("Python"));
+  let (cfgs_js, cfgs_py, cfgs_c) = (mk("JavaScript"), mk("Python"), mk("C"));
   let scratch = format!("/var/tmp/agv-c14-{}", std::process::id());
   // CLI runs are the expensive part: every layout in thorough, a stride in quick
   let stride = (layouts.len() / if thorough { 6000 } else { 400 }).max(1);
@@ -133,12 +162,12 @@ pub fn drive(vectors: &str, out: &str, thorough: bool) {
   let results = cli::par_map(chunk, 12, |k, layout| {
     let i = base + k;
     // every layout in its plain form and in one more skin, in turn
-    let skins: Vec<Skin> = if i % 6 == 0 { vec![SKINS[0]] } else { vec![SKINS[0], SKINS[i % 6]] };
+    let skins: Vec<Skin> = if i % 7 == 0 { vec![SKINS[0]] } else { vec![SKINS[0], SKINS[i % 7]] };
     let mut recs = vec![];
     for skin in &skins {
       let (src, off) = render(layout, skin);
-      let lang = if skin.python { SupportLang::Python } else { SupportLang::JavaScript };
-      let cfgs = if skin.python { &cfgs_py } else { &cfgs_js };
+      let lang = if skin.python { SupportLang::Python } else if skin.c { SupportLang::C } else { SupportLang::JavaScript };
+      let cfgs = if skin.python { &cfgs_py } else if skin.c { &cfgs_c } else { &cfgs_js };
       let unused_cfg = CombinedScan::unused_config(Severity::Hint, lang);
       let g = lang.ast_grep(&src);
       for separate_fix in [false, true] {
@@ -165,10 +194,10 @@ pub fn drive(vectors: &str, out: &str, thorough: bool) {
       if i % stride == 0 {
         let p = Project::new(&format!("{scratch}/p{i}s{}", skin.id));
         p.config(None);
-        for r in rules_json(if skin.python { "Python" } else { "JavaScript" }) {
+        for r in rules_json(if skin.python { "Python" } else if skin.c { "C" } else { "JavaScript" }) {
           p.rule(&format!("{}.yml", r["id"].as_str().unwrap()), &r);
         }
-        p.write(if skin.python { "src/t.py" } else { "src/t.js" }, src.as_bytes());
+        p.write(if skin.python { "src/t.py" } else if skin.c { "src/t.c" } else { "src/t.js" }, src.as_bytes());
         let o = run_sgv(&["scan", "--json=stream"], &p.root, None, 20, &[]);
         let hits: Vec<(String, usize, usize)> = json_lines(&o.stdout)
           .iter()
